@@ -49,7 +49,8 @@ CHECKS = {
             'The stream received by a listener and by a bound property statechart must equal the stream implied by the '
             'MacroStep, interleaved with the code probes; a property chart turning final at meta-event k must make that call '
             'raise with the log ending at k; never-final property charts must not change the run; a timeout property chart (delayed '
-            'event sent to itself, plain bind form) must fail exactly at the first meta-event past its deadline.',
+            'event sent to itself, plain bind form) must fail exactly at the first meta-event past its deadline; failing property '
+            'charts need up to 25 macro steps of their own.',
             'trusted: expected-stream construction from the MacroStep (itself validated by C03)', '§4 C10'),
     'C13': ('exploration', 'runtime monitor: logged predicate values vs time-stamp model, clock moved between and inside steps',
             'time/after/idle values logged by guards and contract conditions are recomputed exactly from observed entry/'
